@@ -49,13 +49,35 @@ def e2e_scenarios(ctx, rnd, base=0):
     return scns
 
 
-def run_e2e(ctx, scns):
+def e2e_overlay(ctx):
+    """End-to-end driver, the scripted regression scenarios of C15 (same package) and the accessors."""
     pkg = "lib/dispatchcloud"
     ov = ctx.harness_overlay(pkg, "harness/C14_dispatchcloud")
+    ov.update(ctx.harness_overlay(pkg, "harness/C15_dispatchcloud"))
     ov.update({k: v for k, v in ctx.harness_overlay("lib/dispatchcloud/test", "harness/C14_test").items()
                if "zz_verif_vio" not in k})
-    events, out = ctx.go_run_driver(pkg, ov, "TestVerifC14E2E$", scns, timeout=2400)
-    return events
+    return ov
+
+
+def drop_infra(ctx, events, label):
+    """Runs whose child process died for a reason that is not a panic in the code under test (timeout,
+    kill, failed set-up, scenario not applicable) say nothing about the property: dropped and counted."""
+    keep, dropped = [], []
+    for t in vlib.split_traces(events):
+        bad = [e for e in t if e["ev"] == "infra"]
+        if bad:
+            dropped.append({"scn": t[0].get("scn"), "what": str(bad[0].get("what"))[:200]})
+        else:
+            keep += t
+    ctx.extra[label + "_runs_dropped_infra"] = dropped
+    if len(dropped) > 2:
+        raise vlib.InfraError("%s: %d runs died for infrastructure reasons: %r" % (label, len(dropped), dropped[:3]))
+    return keep
+
+
+def run_e2e(ctx, scns, label="e2e"):
+    events, out = ctx.go_run_driver("lib/dispatchcloud", e2e_overlay(ctx), "TestVerifC14E2E$", scns, timeout=2400)
+    return drop_infra(ctx, events, label)
 
 
 def S(a, c=0, w=0, x=""):
@@ -92,8 +114,9 @@ def scripted_scenarios():
 def part_queue(ctx, rnd):
     """container.Queue's cache vs the API server: answers to its own calls against polls."""
     ctx.tlc(SD, "QueueCache", "MC_QueueCache.cfg", timeout=900, label="container.Queue, one container: NoRegress / Fresh outside the known class")
-    r = ctx.tlc(SD, "QueueCache", "MC_QueueCache_kf.cfg", timeout=900, must_pass=False,
-                label="expected counterexample: a late answer overwrites a newer poll result (no exclusion)")
+    r = ctx.tlc(SD, "QueueCache", "MC_QueueCache_kf_strict.cfg", timeout=900, must_pass=False,
+                label="expected counterexample (judged clause): a late answer makes a container startable again after a "
+                      "newer non-startable version was shown")
     ctx.extra["design_level_counterexample_late_answer"] = bool(r.violated)
     ctx.tlc(SD, "QueueCache", "MC_QueueCache_fixed.cfg", timeout=900, label="the proposed repair (C14-1.diff) modelled: NoRegress / Fresh, no exclusion")
     walks, _ = ctx.gen(SD, "QueueCache", "Gen_QueueCache.cfg", simulate="num=%d" % (1500 if ctx.thorough else 150), depth=17,
@@ -125,6 +148,9 @@ def part_queue(ctx, rnd):
         raise vlib.InfraError("more than half of the queue-level steps could not be applied")
     acc = ctx.judge(SD, "QueueCacheTrace", "Judge_QueueCache.cfg", events, scenario_of={s["id"]: s for s in walks},
                     timeout=900, max_rejects=200)
+    # the implementation-shaped clauses (NoRegress, Fresh) go beyond the statement: drift only
+    ctx.judge_as_drift("iii_queue_noregress_fresh", SD, "QueueCacheTrace", "Judge_QueueCache_full.cfg", events,
+                       scenario_of={s["id"]: s for s in walks}, timeout=900, max_rejects=12)
     ctx.extra["iii_traces"] = len(tr)
     ctx.extra["iii_traces_accepted"] = acc
     ctx.samples += [{"scenario": walks[-3], "trace": [t for t in tr if t[0]["scn"] == 9101][0]}] if any(t[0]["scn"] == 9101 for t in tr) else []
@@ -144,6 +170,11 @@ def run(ctx):
                 label="1 x 1, ALL interleavings, atomic queue: refinement (sound)")
         ctx.tlc(SD, "Dispatch", "MC_Dispatch_async.cfg", timeout=3000,
                 label="1 x 1, ALL interleavings, container.Queue semantics (delayed answers): refinement (async)")
+        ctx.tlc(SD, "Dispatch", "MC_Dispatch_list.cfg", timeout=3000,
+                label="1 x 2, list calls that take time, pool.sync threshold taken before the call (the code): refinement")
+        rl = ctx.tlc(SD, "Dispatch", "MC_Dispatch_list_kf.cfg", timeout=3000, must_pass=False,
+                     label="why the threshold must be taken before the call: threshold after the call => second process")
+        ctx.extra["design_level_counterexample_threshold_after_list"] = bool(rl.violated)
         r = ctx.tlc(SD, "Dispatch", "MC_Dispatch_kf.cfg", timeout=3000, must_pass=False,
                     label="expected counterexample: restart + StaleLockTimeout with an unknown worker (no exclusion)")
         ctx.extra["design_level_counterexample_fixStaleLocks"] = bool(r.violated)
@@ -211,8 +242,13 @@ def run(ctx):
     ev2 = run_e2e(ctx, e2e)
     tr2 = vlib.split_traces(ev2)
     maxw = max([e.get("w", 0) for e in ev2] + [w for e in ev2 for w in e.get("bad", []) + e.get("others", [])] + [0])
-    small = max(s["n"] for s in e2e) <= 130 and maxw <= 300      # smaller identity sets judge faster
-    acc2 = ctx.judge(SD, "DispatchTrace", "Judge_Dispatch_e2e_mid.cfg" if small else "Judge_Dispatch_e2e.cfg", ev2,
+    maxc = max(s["n"] for s in e2e)
+    if maxc > 520 or maxw > 6000:
+        raise vlib.InfraError("end-to-end run outside the judge's identity sets (%d containers, instance %d)" % (maxc, maxw))
+    # smaller identity sets judge faster
+    jcfg = ("Judge_Dispatch_e2e_mid.cfg" if maxc <= 130 and maxw <= 300 else
+            "Judge_Dispatch_e2e.cfg" if maxw <= 1000 else "Judge_Dispatch_e2e_huge.cfg")
+    acc2 = ctx.judge(SD, "DispatchTrace", jcfg, ev2,
                      scenario_of={s["id"]: s for s in e2e}, timeout=1800, heap="12g")
     nproc = sum(1 for e in ev2 if e["ev"] == "procsnap")
     ctx.extra["ii_runs"] = len(tr2)
@@ -220,6 +256,10 @@ def run(ctx):
     ctx.extra["ii_process_starts_judged"] = nproc
     ctx.extra["ii_traces_accepted"] = acc2
     ctx.extra["ii_final"] = [t[-1] for t in tr2 if t[-1]["ev"] == "final"]
+    nbug = sum(1 for e in ev2 if e["ev"] == "stubbug")
+    if nbug:
+        ctx.drift.append("the stub cloud reported %d times 'StubDriver bug or caller bug' (two processes of a container on one VM, "
+                         "also visible as a process start with the same VM among the others)" % nbug)
     if not only and not any(k == "KF-C14-1" for k, _ in ctx.known_seen):
         ctx.drift.append("the targeted fixStaleLocks scenario did not reproduce KF-C14-1 in this run")
     if tr2:
